@@ -125,7 +125,7 @@ TraceComputeOk ==
             (Ev.reordered.ok /\ Abs(Ev.reordered.K - Ev.head.K) <= 2 /\ Abs(Ev.reordered.n50 - Ev.head.n50) <= 2 + Ev.head.n50 \div 10000
              /\ Abs(Ev.reordered.aref - Ev.head.aref) <= 1 + Ev.head.aref \div 10000 /\ Abs(Ev.reordered.q - Ev.head.q) <= 2 + Ev.head.q \div 10000))
   /\ Chk("C11", "ScalingLengthsScalesAreasVolumesCompactness",
-         ("head" \in DOMAIN Ev /\ Ev.head.ok /\ Ev.sane /\ Ev.scaled.ok /\ Ev.head.vgross < 100000000) =>
+         ("head" \in DOMAIN Ev /\ Ev.head.ok /\ Ev.sane /\ Ev.scaled.ok /\ Ev.head.vgross < 100000000 /\ Ev.head.aref < 100000000 /\ Ev.head.vnet < 100000000 /\ Ev.head.compact < 100000000) =>
             (/\ Abs(Ev.scaled.aref - 4 * Ev.head.aref) <= 4 + Ev.head.aref \div 2000
              /\ Abs(Ev.scaled.vgross - 8 * Ev.head.vgross) <= 8 + Ev.head.vgross \div 1000
              /\ Abs(Ev.scaled.vnet - 8 * Ev.head.vnet) <= 8 + Ev.head.vnet \div 1000 + (4 * Ev.head.aref) \div 10
